@@ -24,10 +24,10 @@ Proof. split; [discriminate | vm_compute; reflexivity]. Qed.
 (** The theorems instantiated with the limit found in /repo. *)
 Require Import Nib.C04.Model Nib.C04.Proofs Nib.C04.Property.
 Theorem C04_holds_for_current_limit :
-  forall (t0 : store) (body : list prog),
-    wf_body max_multistore_cache_count body (r_init t0) = true ->
-    let s := run (PFrame body false) (init {| repaired := true; maxc := max_multistore_cache_count |} t0) in
-    let r := rrun max_multistore_cache_count (PFrame body false) (r_init t0) in
-    store_eq (commit s) (r_final r) /\ auxeq (aux s) (r_aux r).
-Proof. intros t0 body. exact (C04_frame_atomicity max_multistore_cache_count t0 body). Qed.
+  forall (bl : list addr) (t0 : store) (body : list prog),
+    wf_body max_multistore_cache_count body (r_init bl t0) = true ->
+    let s := run (PFrame body false) (init {| repaired := true; maxc := max_multistore_cache_count; blocked := bl |} t0) in
+    let r := rrun max_multistore_cache_count (PFrame body false) (r_init bl t0) in
+    store_eq (commit s) (r_final r) /\ auxeq (aux s) (r_aux r) /\ commit_fails s = r_pending r.
+Proof. intros bl t0 body. exact (C04_frame_atomicity max_multistore_cache_count bl t0 body). Qed.
 Print Assumptions C04_holds_for_current_limit.
